@@ -43,6 +43,7 @@ structure G where
   inTask : Bool := false
   bad : Bool := false
   -- a task stopped in the middle of its step (atom `!`): clock, remaining atoms, result, task, its logical time
+  permanent : List Nat := []        -- TempoClocks with `permanent = True`
   paused : Option (CK × List String × String × Nat × Rat) := none
   blocked : List (CK × List String) := []      -- calls of the second thread waiting for the lock
 
@@ -156,6 +157,14 @@ def clockOp (ck : CK) (w : List String) : M (Option String) := do
           if stopped then return some "ClockNotRunning"
           if ck == .sys then return some "AttributeError"
           if ← clockMove ck (.op (.setTempo v g.logical)) then return none
+          else return some "ValueError"
+        | none => modify (fun g => { g with bad := true }); return none
+      | ["E", v] =>
+        match parseRat v with
+        | some v =>
+          if stopped then return some "ClockNotRunning"
+          if ck == .sys then return some "AttributeError"
+          if ← clockMove ck (.op (.etempo v g.now)) then return none
           else return some "ValueError"
         | none => modify (fun g => { g with bad := true }); return none
       | _ => modify (fun g => { g with bad := true }); return none
@@ -440,9 +449,10 @@ def doLine1 (ws : List String) : M String := do
         { g with tasks := tasks.setIfInBounds id (some { routine := kind == "R", behs := splitBehs rest }) }
       return "-"
     | none => return "bad-line"
-  | ["new", i, rate] =>
+  | "new" :: i :: rate :: flags =>
     match i.toNat?, parseRat rate with
     | some i, some rate =>
+      if flags == ["p"] then modify fun g => { g with permanent := i :: g.permanent }
       let g ← get
       let c := Clock.init (Tempo.new rate g.now) true
       let tempos := if g.tempos.size ≤ i then g.tempos ++ Array.replicate (i + 1 - g.tempos.size) none else g.tempos
@@ -452,6 +462,28 @@ def doLine1 (ws : List String) : M String := do
       runClockThread (.tempo i) FUEL
       takeOut
     | _, _ => return "bad-line"
+  | ["cmdp"] =>
+    -- CmdPeriod.run(): SystemClock.clear(), AppClock.clear(), then every TempoClock: clear(), and
+    -- stop() unless permanent.  The library walks a set: the events of the line are sorted.
+    let _ ← clockMove .sys (.op .clear)
+    let _ ← appMove .clear
+    let g ← get
+    for ck in g.order do
+      match ck with
+      | .tempo i =>
+        match ← getClock ck with
+        | some c =>
+          if c.run then
+            let _ ← clockMove ck (.op .clear)
+            if !(g.permanent.contains i) then
+              let _ ← clockMove ck (.op .stop)
+              wakeThread ck .notify
+        | none => pure ()
+      | _ => pure ()
+    let g ← get
+    set { g with out := #[] }
+    let evs := g.out.toList.mergeSort (fun a b => a ≤ b)
+    return (if evs.isEmpty then "-" else ";".intercalate evs)
   | ["adv", d] =>
     match parseRat d with
     | some d => modify (fun g => { g with now := g.now + d }); return "-"
